@@ -287,6 +287,7 @@ PROPS = {
         "timeout": {"quick": 900, "thorough": 3000},
     },
     "C09": {
+        "hang_is_violation": True,   # the statement itself rules out a request that blocks for ever
         "title": "Every request gets a well-formed answer; no panic, hang or wedged state",
         "gen": {"out": "ErrorsGen", "go": "error.go (ErrorCode.Status, the ErrorCode constants)",
                 "theorems": ["C09_gen_status_is_model", "C09_gen_status_table_sane"]},
@@ -310,6 +311,7 @@ PROPS = {
         "timeout": {"quick": 900, "thorough": 3000},
     },
     "C07": {
+        "hang_is_violation": True,   # the statement itself rules out a request that blocks for ever
         "title": "Concurrent clients see linearizable, race-free behaviour",
         "harness": "c07",
         "model": "Model/Conc.v: every request = Pre (no lock: body read) / Commit (under the backend lock: whole effect + capture of the response) / Post (no lock: streaming) sections over Model/Handlers.v step; schedules = arbitrary interleavings; Model/Uploader.v for the multipart rounds",
